@@ -118,6 +118,34 @@ func Zoo() []ZooEntry {
 	add("[]string-nil", NilOf(SliceOf(TString)))
 	add("map[string][]int", MapNode(MapOf(TString, SliceOf(TInt)), []*Node{Str("abc")}, []*Node{Slice(SliceOf(TInt), Int(5))}))
 	add("map[string]struct", MapNode(MapOf(TString, st), []*Node{Str("abc")}, []*Node{sv}))
+	// unusual but legal shapes
+	add("[2][2]int", &Node{T: ArrayOf(2, ArrayOf(2, TInt)), Items: []*Node{{T: ArrayOf(2, TInt), Items: []*Node{Int(5), Int(7)}}, {T: ArrayOf(2, TInt), Items: []*Node{Int(9), Int(5)}}}})
+	add("[][]string", Slice(SliceOf(SliceOf(TString)), Slice(SliceOf(TString), Str("abc")), NilOf(SliceOf(TString))))
+	add("map[string]map[string]int", MapNode(MapOf(TString, MapOf(TString, TInt)), []*Node{Str("abc"), Str("0")}, []*Node{MapNode(MapOf(TString, TInt), []*Node{Str("abc")}, []*Node{Int(5)}), NilOf(MapOf(TString, TInt))}))
+	add("map[string]map[int]string", MapNode(MapOf(TString, MapOf(TInt, TString)), []*Node{Str("abc")}, []*Node{MapNode(MapOf(TInt, TString), []*Node{Int(5)}, []*Node{Str("abc")})}))
+	add("[]map[string]int", Slice(SliceOf(MapOf(TString, TInt)), MapNode(MapOf(TString, TInt), []*Node{Str("abc")}, []*Node{Int(5)}), NilOf(MapOf(TString, TInt))))
+	add("interface-holding-**int", Iface(Ptr(Ptr(Int(5)))))
+	add("interface-holding-*[]int", Iface(Ptr(Slice(SliceOf(TInt), Int(5)))))
+	add("*[2]int", Ptr(&Node{T: ArrayOf(2, TInt), Items: []*Node{Int(5), Int(7)}}))
+	add("***string", Ptr(Ptr(Ptr(Str("abc")))))
+	add("[]*[]int", Slice(SliceOf(PtrTo(SliceOf(TInt))), Ptr(Slice(SliceOf(TInt), Int(5)))))
+	add("map[string]*int", MapNode(MapOf(TString, PtrTo(TInt)), []*Node{Str("abc"), Str("5")}, []*Node{Ptr(Int(5)), NilPtr(TInt)}))
+	add("map[string]**int", MapNode(MapOf(TString, PtrTo(PtrTo(TInt))), []*Node{Str("abc")}, []*Node{Ptr(Ptr(Int(5)))}))
+	base := StructOf(Field{Name: "A", Type: TInt}, Field{Name: "Abc", Tag: `bexpr:"abc"`, Type: TString})
+	add("struct-embedded", Struct(StructOf(Field{Name: "Base", Type: base, Embedded: true}, Field{Name: "X", Type: TInt}), Struct(base, Int(5), Str("abc")), Int(5)))
+	add("struct-embedded-ptr", Struct(StructOf(Field{Name: "Base", Type: PtrTo(base), Embedded: true}, Field{Name: "A", Type: TString}), Ptr(Struct(base, Int(5), Str("abc"))), Str("abc")))
+	add("struct-tag-collision", Struct(StructOf(Field{Name: "A", Tag: `bexpr:"B"`, Type: TInt}, Field{Name: "B", Type: TString}, Field{Name: "C", Tag: `bexpr:"-"`, Type: TInt}, Field{Name: "D", Tag: `bexpr:"C"`, Type: TInt}),
+		Int(5), Str("abc"), Int(7), Int(5)))
+	add("struct-of-containers", Struct(StructOf(Field{Name: "L", Tag: `bexpr:"0"`, Type: SliceOf(TInt)}, Field{Name: "M", Tag: `bexpr:"abc"`, Type: MapOf(TString, TInt)}),
+		Slice(SliceOf(TInt), Int(5)), MapNode(MapOf(TString, TInt), []*Node{Str("abc")}, []*Node{Int(5)})))
+	add("uint8-max", UintOf(TUint8, 255))
+	add("int32-min", IntOf(TInt32, math.MinInt32))
+	add("float64-max", Float(math.MaxFloat64))
+	add("float64-subnormal", Float(math.SmallestNonzeroFloat64))
+	add("float32-max", FloatOf(TFloat32, math.MaxFloat32))
+	add("string-unicode", Str("日本語 é 😀"))
+	add("string-nul", Str("a\x00b"))
+	add("string-invalid-utf8", Str("a\xffb"))
 	add("chan", &Node{T: &Type{K: KChan}, I: 1})
 	add("func", &Node{T: &Type{K: KFunc}})
 	add("complex128", &Node{T: &Type{K: KComplex128}, F: 1})
